@@ -4,3 +4,5 @@ import Proofs.Report
 import Proofs.Ledger
 import Proofs.SchedInv
 import Proofs.WFCheck
+import Proofs.Resolve
+import Proofs.Macro
